@@ -274,6 +274,10 @@ func (c *Ctx) callEffects(ins ssa.CallInstruction, l *Loop, top bool, seen map[*
 			n, s := c.elemComp(c.under(cc.Args[0].Type()).(*types.Slice).Elem())
 			c.addComp(l, n, s, cc.Args[0])
 		case "delete", "clear":
+			if sl, ok := c.under(cc.Args[0].Type()).(*types.Slice); ok {
+				n, s := c.elemComp(sl.Elem())
+				c.addComp(l, n, s, cc.Args[0])
+			}
 			if m, ok := c.under(cc.Args[0].Type()).(*types.Map); ok {
 				dn, vn, ln, ds, vs, ls := c.mapComps(m)
 				c.addComp(l, dn, ds, cc.Args[0])
@@ -314,7 +318,7 @@ func (c *Ctx) callEffects(ins ssa.CallInstruction, l *Loop, top bool, seen map[*
 		return
 	}
 	key := funcKey(fn)
-	if sp, ok := c.SS.Funcs[key]; ok && (sp.HasBody || sp.Trusted) && !sp.Inline {
+	if sp := c.SS.specFor(fn); sp != nil && (sp.HasBody || sp.Trusted) && !sp.Inline {
 		c.specEffects(sp, fn, cc, l)
 		return
 	}
